@@ -52,3 +52,6 @@ Inductive jvalue : val -> ty -> Prop :=
 | JNewType n t v : jvalue v t -> jvalue v (TNewType n t)
 | JAnnot t v : jvalue v t -> jvalue v (TAnnot t).
 End JSpec.
+
+(* the pyyaml converter: dumps followed by the library's loads, on the plain Converter's unstructured form *)
+Definition ywire (u : val) : val := yaml_rt (yamlify u).
